@@ -177,4 +177,648 @@ Section P.
     destruct (Hv v eq_refl) as [[q ->]| ->]; [|reflexivity].
     simpl. unfold field_of_env. destruct (get_frame F s q); [|reflexivity]. destruct Hf as [-> | ->]; reflexivity.
   Qed.
+
+  (* ================================================================== evaluation of the place expressions *)
+  Notation load_ptr := (load_ptr F fofbits).
+  Notation store_slot := (store_slot F ftobits).
+  Notation set_ref := (set_ref F fconv).
+  Notation binop_val := (binop_val F fbin fcmp).
+  Notation read_val := (read_val F).
+  Notation next_stmt := (next_stmt F).
+  Notation outcome := (outcome F).
+
+  Arguments Sem.eval : simpl never.
+  Arguments Model.exec2 : simpl never.
+
+  Definition ret_of (r : res value) (s : state) : res (value * state) :=
+    match r with Ok v => Ok (v, s) | Panic x => Panic x | Stuck => Stuck | OutOfFuel => OutOfFuel end.
+
+  Lemma eval_outer (ce : cenv) (le : lenv) a p n (s : state) : sel_freeb ce = true ->
+    eval ce le a s = ret_of (chain s p n) s -> eval ce le (ESel a F_Outer) s = ret_of (chain s p (S n)) s.
+  Proof.
+    intros H E. rewrite eval_sel by (assumption || reflexivity). rewrite E.
+    pose proof (chain_value s p n) as Hv. simpl chain.
+    destruct (chain s p n) as [v| | |]; try reflexivity.
+    destruct (Hv v eq_refl) as [[q ->]| ->]; simpl; [|reflexivity].
+    unfold field_of_env. destruct (get_frame F s q) as [fr|]; [|reflexivity]. destruct (fr_outer F fr); reflexivity.
+  Qed.
+
+  Lemma eval_fld (ce : cenv) (le : lenv) a p n f (s : state) : sel_freeb ce = true -> f = F_Ints \/ f = F_Vals ->
+    eval ce le a s = ret_of (chain s p n) s -> eval ce le (ESel a f) s = sel_of f (resolved s (chain s p n)).
+  Proof.
+    intros H Hf E. rewrite eval_sel by (try assumption; destruct Hf as [-> | ->]; reflexivity). rewrite E.
+    rewrite <- (field_resolved f s (chain s p n) Hf (chain_value s p n)).
+    destruct (chain s p n) as [v| | |]; try reflexivity; try (simpl; destruct v; reflexivity).
+  Qed.
+
+  Definition nhops (h : hops) (upn : Z) : nat :=
+    match h with H0 => 0 | H1 => 1 | H2 => 2 | HLoop => Z.to_nat upn | HFile => 0 end%nat.
+
+  Lemma target_chain h upn p (s : state) : h <> HFile -> target h upn p s = resolved s (chain s p (nhops h upn)).
+  Proof.
+    intros Hh. rewrite resolved_chain. destruct h; try reflexivity. exfalso. apply Hh. reflexivity.
+  Qed.
+
+  (* what the local environment must provide for the place expression of hops h *)
+  Definition le_ok (h : hops) (upn : Z) (p : nat) (le : lenv) (s : state) : Prop :=
+    llookup F le V_env = Some (VEnv p) /\
+    match h with
+    | HLoop => exists v, llookup F le V_o = Some v /\ chain s p (Z.to_nat upn) = Ok v
+    | _ => True
+    end.
+
+  Lemma eval_place_fld h upn p f (ce : cenv) (le : lenv) (s : state) :
+    sel_freeb ce = true -> f = F_Ints \/ f = F_Vals -> le_ok h upn p le s ->
+    eval ce le (ESel (envE h) f) s = sel_of f (target h upn p s).
+  Proof.
+    intros H Hf [Henv Hl].
+    assert (E0 : eval ce le venv s = ret_of (chain s p 0) s) by (apply eval_lvar; exact Henv).
+    destruct h.
+    - rewrite target_chain by discriminate. apply eval_fld; assumption.
+    - rewrite target_chain by discriminate. apply eval_fld; try assumption. apply eval_outer; assumption.
+    - rewrite target_chain by discriminate. apply eval_fld; try assumption. apply eval_outer; [assumption|]. apply eval_outer; assumption.
+    - (* env.FileEnv *)
+      assert (Hw : watched f = true) by (destruct Hf as [-> | ->]; reflexivity).
+      simpl envE. rewrite eval_sel by assumption. rewrite eval_sel by (assumption || reflexivity).
+      unfold venv. rewrite (eval_lvar ce le V_env (VEnv p) s Henv).
+      unfold field_of_env, target. destruct (get_frame F s p) as [fr|]; [|reflexivity].
+      destruct (fr_file F fr) as [q|]; [|reflexivity].
+      destruct (get_frame F s q); [|reflexivity]. destruct Hf as [-> | ->]; reflexivity.
+    - destruct Hl as (v & Hv & Hc).
+      rewrite target_chain by discriminate. simpl nhops. simpl envE.
+      rewrite eval_sel by (try assumption; destruct Hf as [-> | ->]; reflexivity).
+      rewrite (eval_lvar ce le V_o v s Hv).
+      rewrite <- (field_resolved f s (chain s p (Z.to_nat upn)) Hf (chain_value s p (Z.to_nat upn))).
+      rewrite Hc. destruct v; reflexivity.
+  Qed.
+
+  (* ================================================================== one-step unfoldings *)
+  Lemma eval_ptr (ce : cenv) (le : lenv) k a i :
+    eval ce le (EConv (TPtr k) (EConv TUnsafePtr (EAddr (EIndex a i)))) =
+    bind F (eval ce le a) (fun va => bind F (eval ce le i) (fun vi =>
+      match va, int_of F vi with VInts p, Some z => ret F (VPtr k p z) | _, _ => stuck F end)).
+  Proof. reflexivity. Qed.
+
+  Lemma exec2_seq a b fuel (ce : cenv) (le : lenv) (s : state) :
+    exec2 (SSeq a b) fuel ce le s =
+    match exec2 a fuel ce le s with
+    | Ok (ONormal _ le', s') => exec2 b fuel ce le' s'
+    | Ok (OReturn _ vs, s') => Ok (OReturn F vs, s')
+    | Panic x => Panic x | Stuck => Stuck | OutOfFuel => OutOfFuel
+    end.
+  Proof.
+    change (exec2 (SSeq a b) fuel ce le) with
+      (bind F (exec2 a fuel ce le) (fun o => match o with ONormal _ le' => exec2 b fuel ce le' | OReturn _ vs => ret F o end)).
+    unfold bind. destruct (exec2 a fuel ce le s) as [[o s']| | |]; try reflexivity. destruct o; reflexivity.
+  Qed.
+
+  Definition idx_ok (ce : cenv) (le : lenv) (idx : Z) : Prop :=
+    forall s : state, eval ce le (EVar V_index) s = Ok (VInt GInt idx, s).
+
+  (* x OP= e for an IntBind variable: the shape the store takes once the slot is resolved *)
+  Definition int_store (op : binop) (k : gokind) (q : nat) (idx : Z) (le : lenv) (rhs : Sem.M F value) : Sem.M F outcome :=
+    bind F rhs (fun v => bind F (load_ptr k q idx) (fun old =>
+      match binop_val op old v with
+      | Ok r => bind F (store_slot k q idx r) (fun _ => ret F (ONormal F le))
+      | Panic x => fun _ => Panic x
+      | _ => stuck F
+      end)).
+
+  Lemma exec_opassign_slot op k h e fuel (ce : cenv) (le : lenv) (s : state) q idx :
+    eval ce le (ESel (envE h) F_Ints) s = Ok (VInts q, s) -> idx_ok ce le idx ->
+    exec2 (SOpAssign op (slotE k h) e) fuel ce le s = int_store op k q idx le (eval ce le e) s.
+  Proof.
+    intros E1 E2. unfold int_store.
+    assert (G : forall k', exec2 (SOpAssign op (EDeref (ptrE k' h)) e) fuel ce le s =
+                bind F (eval ce le e) (fun v => bind F (load_ptr k' q idx) (fun old =>
+                  match binop_val op old v with
+                  | Ok r => bind F (store_slot k' q idx r) (fun _ => ret F (ONormal F le))
+                  | Panic x => fun _ => Panic x
+                  | _ => stuck F
+                  end)) s).
+    { intros k'.
+      change (exec2 (SOpAssign op (EDeref (ptrE k' h)) e) fuel ce le) with
+        (bind F (eval ce le (ptrE k' h)) (fun pv => bind F (eval ce le e) (fun v =>
+          match pv with
+          | VPtr k0 p i =>
+              bind F (load_ptr k0 p i) (fun old =>
+                match binop_val op old v with
+                | Ok r => bind F (store_slot k0 p i r) (fun _ => ret F (ONormal F le))
+                | Panic q0 => fun _ => Panic q0
+                | _ => stuck F
+                end)
+          | _ => stuck F
+          end))).
+      unfold ptrE. rewrite eval_ptr. unfold bind at 1 2 3. rewrite E1. rewrite (E2 s). simpl. reflexivity. }
+    destruct k; try apply G.
+    (* uint64: the slot itself *)
+    change (exec2 (SOpAssign op (slotE GUint64 h) e) fuel ce le) with
+      (bind F (eval ce le (ESel (envE h) F_Ints)) (fun av => bind F (eval ce le (EVar V_index)) (fun iv => bind F (eval ce le e) (fun v =>
+          match av, int_of F iv with
+          | VInts p, Some z =>
+              bind F (load_ptr GUint64 p z) (fun old =>
+                match binop_val op old v with
+                | Ok r => bind F (store_slot GUint64 p z r) (fun _ => ret F (ONormal F le))
+                | Panic q0 => fun _ => Panic q0
+                | _ => stuck F
+                end)
+          | _, _ => stuck F
+          end)))).
+    unfold bind at 1 2. rewrite E1. rewrite (E2 s). reflexivity.
+  Qed.
+
+  Lemma exec_opassign_slot_fail op k h e fuel (ce : cenv) (le : lenv) (s : state) :
+    (eval ce le (ESel (envE h) F_Ints) s = Stuck -> exec2 (SOpAssign op (slotE k h) e) fuel ce le s = Stuck) /\
+    (forall x, eval ce le (ESel (envE h) F_Ints) s = Panic x -> exec2 (SOpAssign op (slotE k h) e) fuel ce le s = Panic x).
+  Proof.
+    assert (G : forall k', (eval ce le (ESel (envE h) F_Ints) s = Stuck -> exec2 (SOpAssign op (EDeref (ptrE k' h)) e) fuel ce le s = Stuck) /\
+                (forall x, eval ce le (ESel (envE h) F_Ints) s = Panic x -> exec2 (SOpAssign op (EDeref (ptrE k' h)) e) fuel ce le s = Panic x)).
+    { intros k'.
+      change (exec2 (SOpAssign op (EDeref (ptrE k' h)) e) fuel ce le) with
+        (bind F (eval ce le (ptrE k' h)) (fun pv => bind F (eval ce le e) (fun v =>
+          match pv with
+          | VPtr k0 p i =>
+              bind F (load_ptr k0 p i) (fun old =>
+                match binop_val op old v with
+                | Ok r => bind F (store_slot k0 p i r) (fun _ => ret F (ONormal F le))
+                | Panic q0 => fun _ => Panic q0
+                | _ => stuck F
+                end)
+          | _ => stuck F
+          end))).
+      unfold ptrE. rewrite eval_ptr. split; [intros E|intros x E]; unfold bind; rewrite E; reflexivity. }
+    destruct k; try apply G.
+    change (exec2 (SOpAssign op (slotE GUint64 h) e) fuel ce le) with
+      (bind F (eval ce le (ESel (envE h) F_Ints)) (fun av => bind F (eval ce le (EVar V_index)) (fun iv => bind F (eval ce le e) (fun v =>
+          match av, int_of F iv with
+          | VInts p, Some z =>
+              bind F (load_ptr GUint64 p z) (fun old =>
+                match binop_val op old v with
+                | Ok r => bind F (store_slot GUint64 p z r) (fun _ => ret F (ONormal F le))
+                | Panic q0 => fun _ => Panic q0
+                | _ => stuck F
+                end)
+          | _, _ => stuck F
+          end)))).
+    split; [intros E|intros x E]; unfold bind; rewrite E; reflexivity.
+  Qed.
+
+  (* ================================================================== frames *)
+  Lemma nth_error_set_nth_same {A} (l : list A) n a b : nth_error l n = Some a -> nth_error (set_nth l n b) n = Some b.
+  Proof.
+    revert n; induction l as [|x l IH]; intros [|n] H; simpl in *; try discriminate; [reflexivity|]. apply IH. exact H.
+  Qed.
+  Lemma get_set_same (s : state) p fr fr' : get_frame F s p = Some fr -> get_frame F (set_frame F s p fr') p = Some fr'.
+  Proof. unfold get_frame, set_frame. apply nth_error_set_nth_same. Qed.
+
+  Lemma target_state h upn p (s s' : state) q : target h upn p s = Ok (q, s') -> s' = s /\ exists fr, get_frame F s q = Some fr.
+  Proof.
+    unfold target. intros H.
+    assert (C : forall q0, match get_frame F s q0 with Some _ => Ok (q0, s) | None => Stuck end = Ok (q, s') ->
+                           s' = s /\ exists fr, get_frame F s q = Some fr).
+    { intros q0 E. destruct (get_frame F s q0) as [fr|] eqn:G; [|discriminate]. injection E as <- <-. eauto. }
+    assert (U : forall n, match env_up F s p n with
+                          | Ok (VEnv q0) => match get_frame F s q0 with Some _ => Ok (q0, s) | None => Stuck end
+                          | Panic x => Panic x | _ => Stuck end = Ok (q, s') -> s' = s /\ exists fr, get_frame F s q = Some fr).
+    { intros n E. destruct (env_up F s p n) as [v| | |]; try discriminate. destruct v; try discriminate. apply (C p0). exact E. }
+    destruct h; try (apply U in H; exact H).
+    - apply (C p). exact H.
+    - destruct (get_frame F s p) as [fr|]; [|discriminate]. destruct (fr_file F fr) as [q0|]; [|discriminate]. apply (C q0). exact H.
+  Qed.
+
+  (* ================================================================== epilogue *)
+  Definition as_return (r : res (list value * state)) : res (outcome * state) :=
+    match r with Ok (vs, s') => Ok (OReturn F vs, s') | Panic x => Panic x | Stuck => Stuck | OutOfFuel => OutOfFuel end.
+
+  Lemma exec_epilogue fuel (ce : cenv) (le : lenv) p (s : state) :
+    llookup F le V_env = Some (VEnv p) -> exec2 epilogue fuel ce le s = as_return (next_stmt p s).
+  Proof.
+    intros Henv. unfold epilogue. rewrite exec2_seq.
+    change (exec2 (SIncDec true (ESel venv F_IP)) fuel ce le) with
+      (bind F (eval ce le venv) (fun ev => fun s0 : state =>
+          match ev with
+          | VEnv p0 => match get_frame F s0 p0 with
+                      | Some fr => Ok (ONormal F le, set_frame F s0 p0 (with_ip F fr (if true then fr_ip F fr + 1 else fr_ip F fr - 1)))
+                      | None => Stuck end
+          | _ => Stuck
+          end)).
+    unfold bind at 1. unfold venv at 1. rewrite (eval_lvar ce le V_env (VEnv p) s Henv).
+    unfold next_stmt. destruct (get_frame F s p) as [fr|] eqn:G; [|reflexivity].
+    change (exec2 (SReturn2 (EIndex (ESel venv F_Code) (ESel venv F_IP)) venv) fuel ce le) with
+      (bind F (eval ce le venv) (fun v1 => bind F (eval ce le venv) (fun v2 => bind F (eval ce le venv) (fun v3 => fun s0 : state =>
+          match v1, v2, v3 with
+          | VEnv p1, VEnv p2, VEnv p3 =>
+              if Nat.eqb p1 p2 then
+                match get_frame F s0 p1 with
+                | Some fr0 => Ok (OReturn F [VInt GInt (fr_ip F fr0); VEnv p3], s0)
+                | None => Stuck end
+              else Stuck
+          | _, _, _ => Stuck
+          end)))).
+    unfold bind, venv. rewrite !(eval_lvar ce le V_env (VEnv p) _ Henv).
+    rewrite Nat.eqb_refl. rewrite (get_set_same s p fr _ G). reflexivity.
+  Qed.
+
+  (* ================================================================== the right operand *)
+  Lemma eval_call_var (ce : cenv) (le : lenv) x a :
+    eval ce le (ECall1 (EVar x) a) =
+    match llookup F le x with
+    | Some _ => stuck F
+    | None => match clookup F ce (EVar x) with
+              | Some (CF _ _ f) => bind F (eval ce le a) (fun va => match va with VEnv p => f p | _ => stuck F end)
+              | _ => stuck F
+              end
+    end.
+  Proof. reflexivity. Qed.
+
+  (* the operand expression of the closure evaluates to the operand of the specification *)
+  Definition rhs_ok (ce : cenv) (le : lenv) (r : rhsform) (rhs : Sem.M F value) : Prop :=
+    forall s : state, eval ce le (rhsE r) s = rhs s.
+
+  Lemma rhs_const_ok (ce : cenv) (le : lenv) c :
+    llookup F le V_val = None -> clookup F ce (EVar V_val) = Some (CV F c) -> rhs_ok ce le RConst (ret F c).
+  Proof. intros H1 H2 s. apply eval_cvar; assumption. Qed.
+
+  Lemma rhs_expr_ok (ce : cenv) (le : lenv) kf f p :
+    llookup F le V_fun = None -> clookup F ce (EVar V_fun) = Some (CF F kf f) -> llookup F le V_env = Some (VEnv p) ->
+    rhs_ok ce le RExpr (f p).
+  Proof.
+    intros H1 H2 H3 s. unfold rhsE. rewrite eval_call_var, H1, H2. unfold bind, venv.
+    rewrite (eval_lvar ce le V_env (VEnv p) s H3). reflexivity.
+  Qed.
+
+  (* ================================================================== x OP= e, class IntBind *)
+  Definition fail_of {A B} (r : res A) : res B :=
+    match r with Panic x => Panic x | OutOfFuel => OutOfFuel | _ => Stuck end.
+
+  Lemma op_int_sound op k h r upn p idx fuel (ce : cenv) (le : lenv) (s : state) rhs :
+    sel_freeb ce = true -> le_ok h upn p le s -> idx_ok ce le idx -> rhs_ok ce le r rhs ->
+    exec2 (op_stmt op k h CInt r) fuel ce le s =
+    match target h upn p s with
+    | Ok (q, _) => int_store op k q idx le rhs s
+    | Panic x => Panic x
+    | _ => Stuck
+    end.
+  Proof.
+    intros Hce Hle Hidx Hrhs. simpl op_stmt.
+    pose proof (eval_place_fld h upn p F_Ints ce le s Hce (or_introl eq_refl) Hle) as E.
+    destruct (target h upn p s) as [[q s']| | |] eqn:T.
+    - destruct (target_state _ _ _ _ _ _ T) as [-> _]. simpl in E.
+      rewrite (exec_opassign_slot op k h (rhsE r) fuel ce le s q idx E Hidx).
+      unfold int_store, bind. rewrite (Hrhs s). reflexivity.
+    - simpl in E. apply (proj2 (exec_opassign_slot_fail op k h (rhsE r) fuel ce le s)). exact E.
+    - simpl in E. apply (proj1 (exec_opassign_slot_fail op k h (rhsE r) fuel ce le s)). exact E.
+    - (* target never runs out of fuel *)
+      exfalso. unfold target in T.
+      assert (C : forall q0, match get_frame F s q0 with Some _ => Ok (q0, s) | None => Stuck end <> OutOfFuel)
+        by (intros q0; destruct (get_frame F s q0); discriminate).
+      assert (U : forall n, match env_up F s p n with
+                            | Ok (VEnv q0) => match get_frame F s q0 with Some _ => Ok (q0, s) | None => Stuck end
+                            | Panic x => Panic x | _ => Stuck end <> OutOfFuel).
+      { intros n. destruct (env_up F s p n) as [v| | |]; try discriminate. destruct v; try discriminate. apply C. }
+      destruct h; try (eapply U; exact T).
+      + eapply C; exact T.
+      + destruct (get_frame F s p) as [fr|]; [|discriminate]. destruct (fr_file F fr); [|discriminate]. eapply C; exact T.
+  Qed.
+
+  (* ================================================================== x = e, class IntBind *)
+  Lemma exec_assign_slot k h e fuel (ce : cenv) (le : lenv) (s : state) q idx :
+    eval ce le (ESel (envE h) F_Ints) s = Ok (VInts q, s) -> idx_ok ce le idx ->
+    exec2 (SAssign (slotE k h) e) fuel ce le s =
+    bind F (eval ce le e) (fun v => bind F (store_slot k q idx v) (fun _ => ret F (ONormal F le))) s.
+  Proof.
+    intros E1 E2.
+    assert (G : forall k', exec2 (SAssign (EDeref (ptrE k' h)) e) fuel ce le s =
+                bind F (eval ce le e) (fun v => bind F (store_slot k' q idx v) (fun _ => ret F (ONormal F le))) s).
+    { intros k'.
+      change (exec2 (SAssign (EDeref (ptrE k' h)) e) fuel ce le) with
+        (bind F (eval ce le (ptrE k' h)) (fun pv => bind F (eval ce le e) (fun v =>
+          match pv with
+          | VPtr k0 p i => bind F (store_slot k0 p i v) (fun _ => ret F (ONormal F le))
+          | _ => stuck F
+          end))).
+      unfold ptrE. rewrite eval_ptr. unfold bind at 1 2 3. rewrite E1. rewrite (E2 s). simpl. reflexivity. }
+    destruct k; try apply G.
+    change (exec2 (SAssign (slotE GUint64 h) e) fuel ce le) with
+      (bind F (eval ce le (ESel (envE h) F_Ints)) (fun av => bind F (eval ce le (EVar V_index)) (fun iv => bind F (eval ce le e) (fun v =>
+          match av, int_of F iv with
+          | VInts p, Some z => bind F (store_slot GUint64 p z v) (fun _ => ret F (ONormal F le))
+          | _, _ => stuck F
+          end)))).
+    unfold bind at 1 2. rewrite E1. rewrite (E2 s). reflexivity.
+  Qed.
+
+  Lemma exec_assign_slot_fail k h e fuel (ce : cenv) (le : lenv) (s : state) :
+    (eval ce le (ESel (envE h) F_Ints) s = Stuck -> exec2 (SAssign (slotE k h) e) fuel ce le s = Stuck) /\
+    (forall x, eval ce le (ESel (envE h) F_Ints) s = Panic x -> exec2 (SAssign (slotE k h) e) fuel ce le s = Panic x).
+  Proof.
+    assert (G : forall k', (eval ce le (ESel (envE h) F_Ints) s = Stuck -> exec2 (SAssign (EDeref (ptrE k' h)) e) fuel ce le s = Stuck) /\
+                (forall x, eval ce le (ESel (envE h) F_Ints) s = Panic x -> exec2 (SAssign (EDeref (ptrE k' h)) e) fuel ce le s = Panic x)).
+    { intros k'.
+      change (exec2 (SAssign (EDeref (ptrE k' h)) e) fuel ce le) with
+        (bind F (eval ce le (ptrE k' h)) (fun pv => bind F (eval ce le e) (fun v =>
+          match pv with
+          | VPtr k0 p i => bind F (store_slot k0 p i v) (fun _ => ret F (ONormal F le))
+          | _ => stuck F
+          end))).
+      unfold ptrE. rewrite eval_ptr. split; [intros E|intros x E]; unfold bind; rewrite E; reflexivity. }
+    destruct k; try apply G.
+    change (exec2 (SAssign (slotE GUint64 h) e) fuel ce le) with
+      (bind F (eval ce le (ESel (envE h) F_Ints)) (fun av => bind F (eval ce le (EVar V_index)) (fun iv => bind F (eval ce le e) (fun v =>
+          match av, int_of F iv with
+          | VInts p, Some z => bind F (store_slot GUint64 p z v) (fun _ => ret F (ONormal F le))
+          | _, _ => stuck F
+          end)))).
+    split; [intros E|intros x E]; unfold bind; rewrite E; reflexivity.
+  Qed.
+
+  Lemma target_not_oof h upn p (s : state) : target h upn p s <> OutOfFuel.
+  Proof.
+    unfold target.
+    assert (C : forall q0, match get_frame F s q0 with Some _ => Ok (q0, s) | None => Stuck end <> OutOfFuel)
+      by (intros q0; destruct (get_frame F s q0); discriminate).
+    assert (U : forall n, match env_up F s p n with
+                          | Ok (VEnv q0) => match get_frame F s q0 with Some _ => Ok (q0, s) | None => Stuck end
+                          | Panic x => Panic x | _ => Stuck end <> OutOfFuel).
+    { intros n. destruct (env_up F s p n) as [v| | |]; try discriminate. destruct v; try discriminate. apply C. }
+    destruct h; try apply U.
+    - apply C.
+    - destruct (get_frame F s p) as [fr|]; [|discriminate]. destruct (fr_file F fr); [|discriminate]. apply C.
+  Qed.
+
+  Lemma set_int_sound k h r upn p idx fuel (ce : cenv) (le : lenv) (s : state) rhs :
+    sel_freeb ce = true -> le_ok h upn p le s -> idx_ok ce le idx -> rhs_ok ce le r rhs ->
+    exec2 (set_stmt k h CInt r) fuel ce le s =
+    match target h upn p s with
+    | Ok (q, _) => bind F rhs (fun v => bind F (store_slot k q idx v) (fun _ => ret F (ONormal F le))) s
+    | Panic x => Panic x
+    | _ => Stuck
+    end.
+  Proof.
+    intros Hce Hle Hidx Hrhs. simpl set_stmt.
+    pose proof (eval_place_fld h upn p F_Ints ce le s Hce (or_introl eq_refl) Hle) as E.
+    pose proof (target_not_oof h upn p s) as Hn.
+    destruct (target h upn p s) as [[q s']| | |] eqn:T.
+    - destruct (target_state _ _ _ _ _ _ T) as [-> _]. simpl in E.
+      rewrite (exec_assign_slot k h (rhsE r) fuel ce le s q idx E Hidx).
+      unfold bind. rewrite (Hrhs s). reflexivity.
+    - simpl in E. apply (proj2 (exec_assign_slot_fail k h (rhsE r) fuel ce le s)). exact E.
+    - simpl in E. apply (proj1 (exec_assign_slot_fail k h (rhsE r) fuel ce le s)). exact E.
+    - exfalso. apply Hn. reflexivity.
+  Qed.
+
+  (* ================================================================== class VarBind *)
+  Lemma eval_index (ce : cenv) (le : lenv) a i :
+    eval ce le (EIndex a i) =
+    bind F (eval ce le a) (fun va => bind F (eval ce le i) (fun vi =>
+      match va, int_of F vi with
+      | VStr s, Some z => lift F (str_index F s z)
+      | VVals p, Some z => ret F (VRef p z)
+      | VInts p, Some z => fun s => match get_frame F s p with
+                                    | Some fr => match load_slot F fofbits GUint64 (fr_ints F fr) z with Ok v => Ok (v, s) | Panic q => Panic q | _ => Stuck end
+                                    | None => Stuck end
+      | _, _ => stuck F
+      end)).
+  Proof. reflexivity. Qed.
+
+  Lemma eval_vals h upn p idx (ce : cenv) (le : lenv) (s : state) :
+    sel_freeb ce = true -> le_ok h upn p le s -> idx_ok ce le idx ->
+    eval ce le (valsE h) s = match target h upn p s with
+                             | Ok (q, _) => Ok (VRef q idx, s)
+                             | Panic x => Panic x
+                             | _ => Stuck
+                             end.
+  Proof.
+    intros Hce Hle Hidx. unfold valsE. rewrite eval_index. unfold bind.
+    rewrite (eval_place_fld h upn p F_Vals ce le s Hce (or_intror eq_refl) Hle).
+    pose proof (target_not_oof h upn p s) as Hn.
+    destruct (target h upn p s) as [[q s']| | |] eqn:T; try reflexivity.
+    - destruct (target_state _ _ _ _ _ _ T) as [-> _]. simpl. rewrite (Hidx s). reflexivity.
+    - exfalso. apply Hn. reflexivity.
+  Qed.
+
+  Lemma eval_bin (ce : cenv) (le : lenv) op a b :
+    eval ce le (EBin op a b) = bind F (eval ce le a) (fun va => bind F (eval ce le b) (fun vb => lift F (binop_val op va vb))).
+  Proof. reflexivity. Qed.
+  Lemma eval_conv (ce : cenv) (le : lenv) k a :
+    eval ce le (EConv (TK k) a) = bind F (eval ce le a) (fun va => lift F (convert F fconv k va)).
+  Proof. reflexivity. Qed.
+  Lemma eval_acc (ce : cenv) (le : lenv) a m :
+    eval ce le (ECall0 (EMeth a m)) =
+    bind F (eval ce le a) (fun va => fun s =>
+      match va with
+      | VRef p i => match get_frame F s p with
+                    | Some fr => match zth (fr_vals F fr) i with
+                                 | Some v => match accessor F fconv m v with Ok r => Ok (r, s) | _ => Stuck end
+                                 | None => Panic PIndex end
+                    | None => Stuck end
+      | _ => match accessor F fconv m va with Ok r => Ok (r, s) | _ => Stuck end
+      end).
+  Proof. reflexivity. Qed.
+
+  Lemma skipn_pushed {A} (x : A) (l : list A) : skipn (length (x :: l) - length l) (x :: l) = l.
+  Proof. simpl length. rewrite Nat.sub_succ_l by lia. rewrite Nat.sub_diag. reflexivity. Qed.
+
+  (* the operand under the local environment extended by the block-local lhs *)
+  Definition rhs_src (ce : cenv) (le : lenv) (r : rhsform) (p : nat) (rhs : Sem.M F value) : Prop :=
+    match r with
+    | RConst => llookup F le V_val = None /\ exists c, clookup F ce (EVar V_val) = Some (CV F c) /\ rhs = ret F c
+    | RExpr => llookup F le V_fun = None /\ llookup F le V_env = Some (VEnv p) /\
+               exists kf f, clookup F ce (EVar V_fun) = Some (CF F kf f) /\ rhs = f p
+    end.
+  Lemma rhs_src_ok (ce : cenv) (le : lenv) r p rhs : rhs_src ce le r p rhs -> rhs_ok ce le r rhs.
+  Proof.
+    destruct r; simpl.
+    - intros (H1 & c & H2 & ->). apply rhs_const_ok; assumption.
+    - intros (H1 & H3 & kf & f & H2 & ->). eapply rhs_expr_ok; eassumption.
+  Qed.
+  Lemma rhs_src_push (ce : cenv) (le : lenv) r p rhs v : rhs_src ce le r p rhs -> rhs_src ce ((V_lhs, v) :: le) r p rhs.
+  Proof. destruct r; simpl; intros H; exact H. Qed.
+
+  Lemma op_val_sound op k h r upn p idx fuel (ce : cenv) (le : lenv) (s : state) rhs :
+    sel_freeb ce = true -> le_ok h upn p le s -> idx_ok ce le idx -> rhs_src ce le r p rhs ->
+    exec2 (op_stmt op k h CVal r) fuel ce le s =
+    match target h upn p s with
+    | Ok (q, _) => bind F (val_op F fbin fcmp fconv op k q idx rhs) (fun _ => ret F (ONormal F le)) s
+    | Panic x => Panic x
+    | _ => Stuck
+    end.
+  Proof.
+    intros Hce Hle Hidx Hsrc. simpl op_stmt.
+    change (exec2 (SBlock ?b) fuel ce le) with
+      (bind F (exec2 b fuel ce le) (fun o =>
+          match o with
+          | ONormal _ le' => ret F (ONormal F (skipn (length le' - length le) le'))
+          | OReturn _ vs => ret F o
+          end)).
+    unfold bind at 1. rewrite exec2_seq.
+    change (exec2 (SDefine V_lhs (valsE h)) fuel ce le) with
+      (bind F (eval ce le (valsE h)) (fun v => ret F (ONormal F ((V_lhs, default_type F v) :: le)))).
+    unfold bind at 1. rewrite (eval_vals h upn p idx ce le s Hce Hle Hidx).
+    destruct (target h upn p s) as [[q s']| | |] eqn:T; try reflexivity.
+    destruct (target_state _ _ _ _ _ _ T) as [-> _]. clear T.
+    simpl default_type. unfold ret at 1.
+    set (le' := (V_lhs, VRef q idx) :: le).
+    pose proof (rhs_src_ok ce le' r p rhs (rhs_src_push ce le r p rhs (VRef q idx) Hsrc)) as Hrhs.
+    assert (Hl : forall s0 : state, eval ce le' (EVar V_lhs) s0 = Ok (VRef q idx, s0)) by (intros s0; apply eval_lvar; reflexivity).
+    change (exec2 (SExpr (ECall1 (EMeth (EVar V_lhs) ?m) ?e)) fuel ce le') with
+      (bind F (eval ce le' (EVar V_lhs)) (fun lv => bind F (eval ce le' e) (fun v =>
+          match lv with
+          | VRef p0 i => bind F (set_ref m p0 i v) (fun _ => ret F (ONormal F le'))
+          | _ => stuck F
+          end))).
+    rewrite eval_bin, eval_acc.
+    unfold val_op, read_val, ok_or_stuck, mlift.
+    unfold bind, ret, lift, stuck. rewrite (Hl s). cbv beta iota. rewrite (Hl s). cbv beta iota.
+    destruct (get_frame F s q) as [fr|]; [|reflexivity].
+    destruct (zth (fr_vals F fr) idx) as [old|]; [|reflexivity].
+    destruct (accessor F fconv (acc_meth k) old) as [ow| | |]; try reflexivity.
+    (* the right operand, widened *)
+    unfold widen_op.
+    assert (Fin : forall (v : value) (s1 : state),
+      match
+        match match binop_val op ow v with Ok a => Ok (a, s1) | Panic p0 => Panic p0 | Stuck => Stuck | OutOfFuel => OutOfFuel end with
+        | Ok (a, s'0) =>
+            match set_ref (set_meth k) q idx a s'0 with
+            | Ok (_, s'1) => Ok (ONormal F le', s'1)
+            | Panic p0 => Panic p0 | Stuck => Stuck | OutOfFuel => OutOfFuel end
+        | Panic p0 => Panic p0 | Stuck => Stuck | OutOfFuel => OutOfFuel end
+      with
+      | Ok (a, s'0) =>
+          match a with
+          | ONormal _ le'0 => fun s0 : state => Ok (ONormal F (skipn (length le'0 - length le) le'0), s0)
+          | OReturn _ _ => fun s0 : state => Ok (a, s0)
+          end s'0
+      | Panic p0 => Panic p0 | Stuck => Stuck | OutOfFuel => OutOfFuel end =
+      match
+        match match binop_val op ow v with Ok a3 => Ok (a3, s1) | Panic p0 => Panic p0 | Stuck => Stuck | OutOfFuel => OutOfFuel end with
+        | Ok (a4, s'1) => set_ref (set_meth k) q idx a4 s'1
+        | Panic p0 => Panic p0 | Stuck => Stuck | OutOfFuel => OutOfFuel end
+      with
+      | Ok (_, s'0) => Ok (ONormal F le, s'0)
+      | Panic p0 => Panic p0 | Stuck => Stuck | OutOfFuel => OutOfFuel end).
+    { intros v s1. destruct (binop_val op ow v) as [r0| | |]; try reflexivity.
+      destruct (set_ref (set_meth k) q idx r0 s1) as [[u s2]| | |]; try reflexivity.
+      unfold le'. rewrite skipn_pushed. reflexivity. }
+    destruct (is_shiftop op).
+    - rewrite (Hrhs s). destruct (rhs s) as [[v s1]| | |]; try reflexivity. apply Fin.
+    - destruct k;
+        try (rewrite eval_conv; unfold bind, lift; rewrite (Hrhs s); destruct (rhs s) as [[v s1]| | |]; try reflexivity;
+             destruct (convert F fconv _ v) as [vw| | |]; try reflexivity; apply Fin).
+      rewrite (Hrhs s). destruct (rhs s) as [[v s1]| | |]; try reflexivity. apply Fin.
+
+  Qed.
+
+  Lemma set_val_sound k h r upn p idx fuel (ce : cenv) (le : lenv) (s : state) rhs :
+    sel_freeb ce = true -> le_ok h upn p le s -> idx_ok ce le idx -> rhs_ok ce le r rhs ->
+    exec2 (set_stmt k h CVal r) fuel ce le s =
+    match target h upn p s with
+    | Ok (q, _) => bind F (val_set F fconv k q idx rhs) (fun _ => ret F (ONormal F le)) s
+    | Panic x => Panic x
+    | _ => Stuck
+    end.
+  Proof.
+    intros Hce Hle Hidx Hrhs. simpl set_stmt.
+    change (exec2 (SExpr (ECall1 (EMeth (valsE h) ?m) ?e)) fuel ce le) with
+      (bind F (eval ce le (valsE h)) (fun lv => bind F (eval ce le e) (fun v =>
+          match lv with
+          | VRef p0 i => bind F (set_ref m p0 i v) (fun _ => ret F (ONormal F le))
+          | _ => stuck F
+          end))).
+    unfold bind at 1. rewrite (eval_vals h upn p idx ce le s Hce Hle Hidx).
+    destruct (target h upn p s) as [[q s']| | |] eqn:T; try reflexivity.
+    destruct (target_state _ _ _ _ _ _ T) as [-> _]. clear T.
+    unfold val_set, widen_set, mlift. destruct (wide k).
+    - unfold bind, ret. rewrite (Hrhs s). destruct (rhs s) as [[v s1]| | |]; try reflexivity.
+    - rewrite eval_conv. unfold bind, ret, lift. rewrite (Hrhs s). destruct (rhs s) as [[v s1]| | |]; try reflexivity.
+      destruct (convert F fconv (wide_kind k) v) as [vw| | |]; reflexivity.
+  Qed.
+
+  (* ================================================================== the hop loop *)
+  Notation for_loop := (for_loop F).
+
+  Lemma lss_int j n : binop_val Lss (VInt GInt j) (VInt GInt n) = Ok (VBool (j <? n)).
+  Proof. reflexivity. Qed.
+
+  Definition le_loop (p : nat) (j : Z) (v : value) : lenv := [(V_i, VInt GInt j); (V_o, v); (V_env, VEnv p)].
+
+  (* m more iterations starting with i = j, o = the frame j hops up *)
+  Lemma hop_loop_run (ce : cenv) p upn (s : state) fuel0 :
+    sel_freeb ce = true -> clookup F ce (EVar V_upn) = Some (CV F (VInt GInt upn)) -> upn <= 9223372036854775807 ->
+    forall m fuel j v, (m < fuel)%nat -> 0 <= j -> j + Z.of_nat m = upn -> chain s p (Z.to_nat j) = Ok v ->
+    for_loop fuel (fun l => eval ce l (EBin Lss (EVar V_i) (EVar V_upn)))
+             (fun l => exec2 (SAssign (EVar V_o) (ESel (EVar V_o) F_Outer)) fuel0 ce l)
+             (fun l => exec2 (SIncDec true (EVar V_i)) fuel0 ce l) (le_loop p j v) s =
+    match chain s p (Z.to_nat upn) with
+    | Ok w => Ok (ONormal F (le_loop p upn w), s)
+    | Panic x => Panic x
+    | Stuck => Stuck
+    | OutOfFuel => OutOfFuel
+    end.
+  Proof.
+    intros Hce Hupn Hmax. induction m as [|m IH]; intros fuel j v Hf Hj Hm Hc.
+    - assert (j = upn) by lia. subst j. rewrite Hc.
+      destruct fuel as [|fuel]; [lia|]. simpl for_loop. rewrite eval_bin. unfold bind.
+      rewrite (eval_lvar ce (le_loop p upn v) V_i (VInt GInt upn) s eq_refl).
+      rewrite (eval_cvar ce (le_loop p upn v) V_upn (VInt GInt upn) s eq_refl Hupn).
+      unfold lift. rewrite lss_int. rewrite Z.ltb_irrefl. reflexivity.
+    - destruct fuel as [|fuel]; [lia|]. simpl for_loop. rewrite eval_bin. unfold bind at 1 2 3.
+      rewrite (eval_lvar ce (le_loop p j v) V_i (VInt GInt j) s eq_refl).
+      rewrite (eval_cvar ce (le_loop p j v) V_upn (VInt GInt upn) s eq_refl Hupn).
+      unfold lift. rewrite lss_int. assert (Hlt : j <? upn = true) by (apply Z.ltb_lt; lia). rewrite Hlt.
+      (* body: o = o.Outer *)
+      change (exec2 (SAssign (EVar V_o) (ESel (EVar V_o) F_Outer)) fuel0 ce (le_loop p j v)) with
+        (bind F (eval ce (le_loop p j v) (ESel (EVar V_o) F_Outer)) (fun v0 =>
+          match llookup F (le_loop p j v) V_o with
+          | Some w => match assign_conv F w v0 with
+                      | Ok v' => match lupdate F (le_loop p j v) V_o v' with Some le' => ret F (ONormal F le') | None => stuck F end
+                      | _ => stuck F end
+          | None => stuck F
+          end)).
+      unfold bind at 1 2.
+      rewrite eval_sel by (assumption || reflexivity).
+      rewrite (eval_lvar ce (le_loop p j v) V_o v s eq_refl).
+      assert (Hs : chain s p (Z.to_nat (j + 1)) = match v with
+                                                  | VEnv q => field_of_env F F_Outer s q
+                                                  | VNilEnv => Panic PNil
+                                                  | _ => Stuck end).
+      { replace (Z.to_nat (j + 1)) with (S (Z.to_nat j)) by lia. simpl chain. rewrite Hc. destruct v; reflexivity. }
+      assert (Hup : chain s p (Z.to_nat upn) = chain s p (Z.to_nat upn)) by reflexivity.
+      destruct (chain_value s p (Z.to_nat j) v Hc) as [[q ->]| ->].
+      + unfold field_of_env in *. destruct (get_frame F s q) as [fr|] eqn:G.
+        * set (w := (match fr_outer F fr with Some q0 => VEnv q0 | None => VNilEnv end : value)).
+          assert (Hw : chain s p (Z.to_nat (j + 1)) = Ok w) by (rewrite Hs; unfold w; destruct (fr_outer F fr); reflexivity).
+          assert (Ew : match fr_outer F fr with Some q0 => Ok (VEnv q0) | None => Ok VNilEnv end = Ok w :> res value)
+            by (unfold w; destruct (fr_outer F fr); reflexivity).
+          rewrite Ew. cbv beta iota.
+          assert (Ea : assign_conv F (VEnv q) w = Ok w) by (unfold w; destruct (fr_outer F fr); reflexivity).
+          simpl llookup. rewrite Ea. simpl lupdate. unfold ret at 1.
+          (* post: i++ *)
+          change (exec2 (SIncDec true (EVar V_i)) fuel0 ce ?l) with
+            (match llookup F l V_i with
+             | Some w0 => match local_incdec F true w0 with
+                          | Ok r => match lupdate F l V_i r with Some le' => ret F (ONormal F le') | None => stuck F end
+                          | _ => stuck F end
+             | None => stuck F
+             end).
+          simpl llookup. unfold local_incdec. simpl ik_of. simpl lupdate. unfold bind, ret.
+          assert (Hadd : GoInt.add I64 j 1 = j + 1).
+          { unfold GoInt.add. apply wrap_id. unfold in_range. change (imin I64) with (-9223372036854775808).
+            change (imax I64) with 9223372036854775807. lia. }
+          rewrite Hadd. apply (IH fuel (j + 1) w); try lia. exact Hw.
+        * (* dangling frame: stuck, and so is the chain from here on *)
+          assert (Hst : forall n, (Z.to_nat j < n)%nat -> chain s p n = Stuck).
+          { intros n Hn. induction n as [|n IHn]; [lia|].
+            destruct (Nat.eq_dec n (Z.to_nat j)) as [->|Hne].
+            - simpl chain. rewrite Hc. unfold field_of_env. rewrite G. reflexivity.
+            - simpl chain. rewrite IHn by lia. reflexivity. }
+          rewrite (Hst (Z.to_nat upn)) by lia. reflexivity.
+      + (* o is nil: o.Outer panics *)
+        assert (Hst : forall n, (Z.to_nat j < n)%nat -> chain s p n = Panic PNil).
+        { intros n Hn. induction n as [|n IHn]; [lia|].
+          destruct (Nat.eq_dec n (Z.to_nat j)) as [->|Hne].
+          - simpl chain. rewrite Hc. reflexivity.
+          - simpl chain. rewrite IHn by lia. reflexivity. }
+        rewrite (Hst (Z.to_nat upn)) by lia. reflexivity.
+  Qed.
 End P.
